@@ -191,9 +191,9 @@ impl Arena {
 
     #[allow(clippy::mut_from_ref)]
     pub fn alloc_uninit_slice<T>(&self, count: usize) -> &mut [MaybeUninit<T>] {
-        let bytes = mem::size_of::<T>() * count;
-        let alignment = mem::align_of::<T>();
-        let ptr = self.alloc_raw(bytes, alignment).unwrap();
+        // A count whose byte size overflows is a request that does not fit.
+        let layout = Layout::array::<T>(count).unwrap();
+        let ptr = self.alloc_raw(layout.size(), layout.align()).unwrap();
         unsafe { slice::from_raw_parts_mut(ptr.cast().as_ptr(), count) }
     }
 
